@@ -5,7 +5,7 @@
    in the input length (TransportLayerCC: by the 16-bit status count plus 13, also on error outcomes).
    Only statements here; proofs in Proofs/Total1-3.v, Dgram.v, Assemble.v. *)
 From RTCP Require Import Proofs.Tactics Model.Header Model.Reports Model.Sdes Model.ByeApp Model.Feedback Model.Twcc
-  Model.Ccfb Model.Remb Model.Xr Model.Packet Proofs.HeaderProofs Proofs.Total1 Proofs.Total2 Proofs.Total3 Proofs.Dgram Proofs.Assemble.
+  Model.Ccfb Model.Remb Model.Xr Model.Packet Proofs.HeaderProofs Proofs.Total1 Proofs.Total2 Proofs.Total3 Proofs.Dgram Proofs.Assemble Proofs.Extras.
 Local Open Scope N_scope.
 
 Theorem C01_Unmarshal_total : forall b : bytes, Unmarshal b <> Panic /\ Unmarshal b <> Fuel.
@@ -157,3 +157,19 @@ Print Assumptions C01_TransportLayerCC_alloc_counts_the_model.
 (* non-vacuity: decoders do return values on some inputs, and errors on others *)
 Example C01_example : is_ok (Unmarshal [x80; xc9; x00; x01; x00; x00; x00; x01]) = true /\ Unmarshal [x80] = Err /\ SLI_unmarshal [x82; xcd; x00; x00; x00; x00; x00; x00] = Err.
 Proof. vm_compute. repeat split; reflexivity. Qed.
+
+(* ---- memory at the datagram level: the elements all returned packets hold (elems: Proofs/Extras.v), for EVERY accepted byte string ---- *)
+Theorem C01_frame_alloc : forall f p, decode_frame f = Ok p -> elems p <= 65535 + 13 + 2 * len f.
+Proof. exact decode_frame_alloc. Qed.
+Print Assumptions C01_frame_alloc.
+Theorem C01_datagram_alloc : forall b ps, Unmarshal b = Ok ps ->
+  fold_right (fun p acc => elems p + acc) 0 ps <= (65535 + 13) * N.of_nat (List.length ps) + 2 * len b /\
+  4 * N.of_nat (List.length ps) <= len b.
+Proof. exact Unmarshal_alloc. Qed.
+Print Assumptions C01_datagram_alloc.
+Theorem C01_datagram_alloc_linear : forall b ps, Unmarshal b = Ok ps -> fold_right (fun p acc => elems p + acc) 0 ps <= 16388 * len b.
+Proof. exact Unmarshal_alloc_linear. Qed.
+Print Assumptions C01_datagram_alloc_linear.
+Theorem C01_ExtendedReport_alloc : forall b x, XR_unmarshal b = Ok x -> 8 + blocks_wire (xr_blocks x) <= len b.
+Proof. exact XR_unmarshal_alloc. Qed.
+Print Assumptions C01_ExtendedReport_alloc.
